@@ -193,7 +193,13 @@ def check_newlayout(ctx, prog):
 
 
 def check_fillatt(ctx, prog):
-    fn = ctx.need_fn(prog, "ncmpio_put_att")
+    # every driver function that stores an attribute value into a variable's attribute array under a caller-supplied name:
+    # the typed and untyped put (one generated function) and the copy
+    for fname in ("ncmpio_put_att", "ncmpio_copy_att"):
+        _check_fillatt_fn(ctx, ctx.need_fn(prog, fname))
+
+
+def _check_fillatt_fn(ctx, fn):
     found = {}
     for b, i, e in fn.elements():
         if e.get("k") == "asg":
@@ -207,7 +213,7 @@ def check_fillatt(ctx, prog):
     for m, need in (("NC_EBADTYPE", "xtype"), ("NC_EINVAL", "nelems"), ("NC_ELATEFILL", "")):
         ok = any(need in t for t in found.get(m, []))
         if ok:
-            ctx.ok("R4.fillatt", "ncmpio_put_att:" + m, "raised under the _FillValue name test", nontrivial=False)
+            ctx.ok("R4.fillatt", fn.name + ":" + m, "raised under the _FillValue name test", nontrivial=False)
         else:
             ctx.fail("R4.fillatt", fn.name, m, "%s is no longer raised for a _FillValue attribute (%s rule)" % (m, need or "late fill"),
                      fn=fn, line=fn.line)
@@ -305,3 +311,12 @@ def run(ctx):
     ctx.require(n >= 3, "expected >= 3 partition slices in the fill routines, found %d" % n)
     check_fillatt(ctx, prog)
     check_fillreach(ctx, ctx.program(names=["ncmpio_enddef.c"]))
+    from rules import r5setall
+    ctx.rule("R5.setall", "a loop that stores one value into the same member of every element of a header object array (the fill mode "
+             "of every variable in ncmpi_set_fill) covers [0, ndefined)")
+    r5setall.check(ctx, ctx.program(groups=["lib"]), "R5.setall", 2)
+    from rules import r8fillbatch
+    ctx.rule("R8.fillbatch", "fillerup_aggregate hands the write exactly the bytes its file view selects, one block per request whose "
+             "fill buffer was prepared (bounded: up to 3 new variables, fill buffers prepared or refused, 1-2 processes, 0/2 records)")
+    nf = r8fillbatch.check(ctx, ctx.need_fn(ctx.program(names=["ncmpio_fill.c"]), "fillerup_aggregate"), "R8.fillbatch")
+    ctx.require(nf >= 1000, "R8.fillbatch: only %d schemas evaluated" % nf)
